@@ -165,7 +165,7 @@ Definition frame_piece (tagnum: N) (content: bytes) : res bytes :=
 Fixpoint insert_by {A K} (ltb: K -> K -> bool) (key: A -> K) (x: A) (l: list A) : list A :=
   match l with
   | [] => [x]
-  | y :: r => if ltb (key x) (key y) then x :: l else y :: insert_by ltb key x r
+  | y :: r => if ltb (key y) (key x) then y :: insert_by ltb key x r else x :: l     (* stable: x stays before its equals *)
   end.
 Definition sort_by {A K} (ltb: K -> K -> bool) (key: A -> K) (l: list A) : list A :=
   fold_right (fun x acc => insert_by ltb key x acc) [] l.
